@@ -303,8 +303,9 @@ pub fn finish_noexit(mut report: Report, spec: FinishSpec) -> i32 {
     let mut known_hits: BTreeMap<String, (String, u64)> = BTreeMap::new();
     for v in report.violations.drain(..) {
         if let Some(k) = known.iter().find(|k| k.property == prop && k.signature == v.signature) {
+            let total = report.counters.get(&format!("violation:{}", k.signature)).copied().unwrap_or(1);
             let e = known_hits.entry(k.signature.clone()).or_insert((k.what.clone(), 0));
-            e.1 += 1;
+            e.1 = total;
         } else {
             new_violations.push(v);
         }
